@@ -227,7 +227,7 @@ def plan(rng, idx, tier):
                 and op['op'] in ('reify_edges', 'dereify_edges', 'role_algebra', 'errors', 'encode', 'decode')]
         target = pref[0] if pref else clients[0][0]
         t['enumerate_cancel'] = {'op_id': target['id'], 'max_lines': 400 if tier == 'thorough' else 200}
-    if nclients >= 2 and ((tier == 'thorough' and idx % 25 == 5) or idx % 40 == 20):
+    if nclients >= 2 and (idx % 25 == 5 if tier == 'thorough' else idx % 40 == 20):
         # bounded exhaustive exploration of one pair of calls: the first call of client 0 is pre-empted at *every* one
         # of its line events in turn, and the first call of client 1 runs to completion in between
         a_, b_ = clients[0][0], clients[1][0]
